@@ -468,7 +468,11 @@ func (v *fnVC) applyCall(c *ssa.CallCommon, x *ssa.Call, pos token.Pos, cond T) 
 		v.calleeFrameCheck(con, env, key, pos)
 		v.applyModifies(con, env)
 	} else if !con.Pure && !con.Extern {
-		// no modifies clause: treated as modifies nothing only if declared pure; otherwise havoc
+		// no modifies clause: treated as modifies nothing only if declared pure; otherwise havoc - and a caller
+		// that claims a frame cannot rely on it
+		if _, claimed := v.frameAlts("0"); claimed {
+			v.oblige("frame.call", key+" claims no frame", "false", pos)
+		}
 		v.havocAll("contract without modifies/pure: " + key)
 	}
 	rnames := con.Results
